@@ -7333,6 +7333,10 @@ fn eval_break(env: &mut Env, expr_value_is_used: bool) {
 
         match &expr.expr_ {
             Expression_::While(_, _) => {
+                // We're leaving the loop body early, so its bindings
+                // block won't be popped by the DoneRunBlock step.
+                env.current_frame_mut().bindings.pop_block();
+
                 env.current_frame_mut()
                     .exprs_to_eval
                     .push((ExpressionState::EvaluatedSubexpressions, Rc::clone(&expr)));
@@ -7358,10 +7362,7 @@ fn eval_break(env: &mut Env, expr_value_is_used: bool) {
                 // We're exiting a block that wasn't part of a loop
                 // (i.e. a match case or an if/else block), so we
                 // should pop the bindings block here too.
-                if matches!(
-                    expr_state,
-                    ExpressionState::PartiallyEvaluated(BlockState::DoneRunBlock)
-                ) {
+                if owns_running_block(&expr_state, &expr) {
                     env.current_frame_mut().bindings.pop_block();
                 }
 
@@ -7377,10 +7378,26 @@ fn eval_break(env: &mut Env, expr_value_is_used: bool) {
     }
 }
 
+/// Is this pending step the one that pops the bindings block of an
+/// `if`, `match` or `try` block that is currently running?
+fn owns_running_block(expr_state: &ExpressionState, expr: &Expression) -> bool {
+    matches!(expr_state, ExpressionState::EvaluatedSubexpressions)
+        && matches!(
+            expr.expr_,
+            Expression_::If(_, _, _) | Expression_::Match(_, _) | Expression_::Try(_, _, _)
+        )
+}
+
 fn eval_continue(env: &mut Env) {
     // Pop all the currently evaluating expressions until we are back
     // at the loop.
     while let Some((expr_state, expr)) = env.current_frame_mut().exprs_to_eval.pop() {
+        // Leaving an if/else block or a match case on the way out, so
+        // pop its bindings block too.
+        if owns_running_block(&expr_state, &expr) {
+            env.current_frame_mut().bindings.pop_block();
+        }
+
         // A loop that hasn't started is a later statement of the
         // block we're leaving, not the loop we're continuing.
         if matches!(
